@@ -241,6 +241,66 @@ def handle_discipline(ct: Container, rep, rule="handle-discipline"):
                 rep.fail(rule, "tdfUtils.py", wname, inner, "the guard wrapper does not forward to the wrapped method exactly once")
 
 
+def enter_failure_releases(prog, rep, rule="handle-discipline"):
+    """`with` does not call __exit__ when __enter__ raises.  Everything __enter__ does after opening the handle (comparing the
+    signature, decoding header and table - each can raise on a file that is not a TDF or is cut short) is therefore inside a
+    try whose handler closes the handle, resets the context flag and re-raises; otherwise every reader applied to such a file
+    leaves the handle it opened implicitly open and the object marked as inside a context.  Decided on the un-normalised source
+    (the normal form drops this protective wrapper, which only matters on the failing path)."""
+    import ast as _ast
+    src = (prog.src / "basictdf.py").read_text()
+    tree = _ast.parse(src)
+    tdf = next((c for c in tree.body if isinstance(c, _ast.ClassDef) and c.name == "Tdf"), None)
+    if tdf is None:
+        raise AnalysisError("anchor vanished: class Tdf")
+    meths = {m.name: m for m in tdf.body if isinstance(m, _ast.FunctionDef)}
+    enter = meths.get("__enter__")
+    if enter is None:
+        raise AnalysisError("anchor vanished: Tdf.__enter__")
+    opens = lambda n: any(isinstance(c, _ast.Call) and ((isinstance(c.func, _ast.Attribute) and c.func.attr == "open") or norm(c.func) == "open") for c in _ast.walk(n))
+
+    def releasing(h):
+        caught = [norm(x) for x in (h.type.elts if isinstance(h.type, _ast.Tuple) else [h.type])] if h.type is not None else ["BaseException"]
+        if not any(c_.split(".")[-1] in ("BaseException", "Exception") for c_ in caught):
+            return False
+        calls = [norm(c.func) for c in _ast.walk(h) if isinstance(c, _ast.Call)]
+        via_exit = any(c_ == "self.__exit__" for c_ in calls)
+        closes = via_exit or any(c_.endswith(".close") for c_ in calls)
+        resets = via_exit or any(isinstance(a, _ast.Assign) and any(norm(t) == "self._inside_context" for t in a.targets) and isinstance(a.value, _ast.Constant) and a.value.value is False
+                                 for a in _ast.walk(h))
+        reraises = bool(h.body) and isinstance(h.body[-1], _ast.Raise) and h.body[-1].exc is None
+        return closes and resets and reraises
+
+    def protected(body):
+        """the statements of `body` from the one that opens the handle on (a trailing `return` of a name aside) sit in a try with a releasing handler"""
+        for i, st in enumerate(body):
+            if isinstance(st, _ast.Try) and any(releasing(h) for h in st.handlers):
+                inner_opens = any(opens(b) or helper_opens(b) for b in st.body)
+                if inner_opens:
+                    return all(isinstance(x, _ast.Return) for x in body[i + 1:])
+                continue
+            if opens(st) or helper_opens(st):
+                return False
+        return None
+
+    def helper_opens(st):
+        for c in _ast.walk(st):
+            if isinstance(c, _ast.Call) and isinstance(c.func, _ast.Attribute) and isinstance(c.func.value, _ast.Name) and c.func.value.id == "self" and c.func.attr in meths \
+                    and c.func.attr not in ("__enter__", "__exit__") and opens(meths[c.func.attr]):
+                return True
+        return False
+
+    verdict = protected(enter.body)
+    if verdict:
+        rep.ok(rule, "Tdf.__enter__: a failure after the handle was opened closes it, resets the context flag and re-raises", nontrivial=True)
+    else:
+        first = next((st for st in enter.body if opens(st) or helper_opens(st)), enter)
+        rep.fail(rule, "basictdf.py", "Tdf.__enter__", first,
+                 "what __enter__ does after opening the handle (signature comparison, decoding of header and table) is not protected: when it raises - a file that is not a TDF, "
+                 "a truncated table - `with` does not call __exit__, so the handle a reader opened implicitly stays open and the object stays marked as inside a context",
+                 construct="Tdf.__enter__ failure after open")
+
+
 def mode_lifecycle(ct: Container, rep, rule="mode-lifecycle"):
     tdf = ct.tdf
     mod = ct.mod.path.name
@@ -609,6 +669,7 @@ def run(prog, rep):
     self_check()
     from .. import mutrules as _M
     rep.attempt(_M.session_boundary, prog, rep)
+    rep.attempt(enter_failure_releases, prog, rep)
     ct = Container(prog)
     cd = Codecs(prog)
     cd.flag_errors(rep)
